@@ -611,6 +611,10 @@ def r5_tabulated_writers(ctx) -> None:
         ("same all-key", [_It({"a|all": [1, 2]}), _It({"a|all": 3})], AND, {"a|all": [1, 2, 3]}),
         ("same all-key, first value null", [_It({"a|all": None}), _It({"a|all": 3})], AND, {"a|all": [None, 3]}),
         ("three items, two keys", [_It({"a": 1}), _It({"b": 2}), _It({"a": 3})], AND, {"b": 2, "a|all": [1, 3]}),
+        # the negation of an item covers all of its values: not a=1 and not a=2 is not expressible as one a|neq item
+        ("same negated key", [_It({"a|neq": 1}), _It({"a|neq": 2})], AND, "<raises>"),
+        ("same negated all-key", [_It({"a|all|neq": [1, 2]}), _It({"a|all|neq": 3})], AND, "<raises>"),
+        ("negated and plain key", [_It({"a|neq": 1}), _It({"a": 2})], AND, {"a|neq": 1, "a": 2}),
     ]
     wrong = []
     for name, items, linking, want in cases:
